@@ -196,3 +196,10 @@ impl Bitboard {
     #[verifier::external_body]
     pub fn bitscan_reverse(self) -> (r: u32) requires self.0 != 0, ensures r == 63 - vstd::std_specs::bits::u64_leading_zeros(self.0) { unimplemented!() }
 }
+pub broadcast proof fn lemma_bit_not(x: u64, i: int)
+    requires 0 <= i < 64,
+    ensures #[trigger] bit(!x, i) == !bit(x, i),
+{
+    let t = i as u64;
+    assert(t < 64 ==> ((((!x) >> t) & 1u64 == 1u64) == !((x >> t) & 1u64 == 1u64))) by(bit_vector);
+}
